@@ -64,6 +64,10 @@ class OptCase:
                     kw["idx_constrained"] = L.reshape(2, -1) if (L.size % 2 == 0 and L.size >= 4 and self.B.shape[0] % 2) else L.reshape(1, -1)
                 elif rc == "list":
                     kw["idx_constrained"] = [int(x) for x in L]
+            if self.meta.get("all_sensors_head") and isinstance(kw.get("all_sensors"), np.ndarray) and kw.get("n_sensors"):
+                # only the head of the unconstrained ranking is handed over (all the rule ever reads of it when its first N entries
+                # already decide the counts)
+                kw["all_sensors"] = kw["all_sensors"][: int(kw["n_sensors"])].copy()
             if self.omits_all_sensors():
                 kw.pop("all_sensors", None)       # the keyword is optional where the rule can do without the unconstrained ranking
             return GQR(), kw
